@@ -305,7 +305,7 @@ def gen_history(rng, hid, forced=None):
 
 
 def generate(rng, tier):
-    n = 420 if tier == "quick" else 6000
+    n = 2500 if tier == "quick" else 40000
     return [Case(jdump(gen_history(rng, "c06-%d" % i)), "history") for i in range(n)]
 
 
